@@ -27,6 +27,8 @@ type Edit struct {
 	// PerRuleElem overrides ElemID for specific rules (e.g. message-level rules triggered by a field edit).
 	PerRuleElem map[string]string `json:"per_rule_elem,omitempty"`
 	Compatible  bool              `json:"compatible,omitempty"` // additive / cosmetic edit: no rule may fire
+	// MovedID: the element that now lives in another file than before (File is its previous file)
+	MovedID string `json:"moved_id,omitempty"`
 }
 
 // Editor applies edits to a workspace drawing its choices from rapid.
@@ -1085,7 +1087,7 @@ func opMoveMessage(e *Editor, ws *Workspace) (*Edit, bool) {
 		return nil, false
 	}
 	return &Edit{Op: "move-message-to-sibling-file", Desc: fmt.Sprintf("move message %s from %s to %s (same package)", m.Name, from.Path, to.Path),
-		Rules: []string{"MESSAGE_NO_DELETE"}, File: from.Path, Mention: []string{m.Name}}, true
+		Rules: []string{"MESSAGE_NO_DELETE"}, File: from.Path, Mention: []string{m.Name}, MovedID: m.ID}, true
 }
 
 // DeleteFieldOf deletes a drawn field of the given message (nothing reserved) and returns it.
